@@ -59,4 +59,12 @@ CHECKS = {
         "design_ref": "DESIGN.md section 3, C13",
         "note": "Trusted: numpy semantics for in-place addition and array equality; container state is read back only through the public API.",
     },
+    "C20": {
+        "technique": "property-based testing: per-pixel reference placement for fit_into_array; write/read round trips over formats and delimiters; generated rewrite histories with a harness-owned file clock against the cached loaders",
+        "text": "Placement of generated inputs on generated detector shapes (offsets, five alignment keywords, non-overlap, forbidden smaller arrays) is compared with a per-pixel "
+                "definition; arrays written by the harness as npy/fits/txt/data/csv with five delimiters must be read back exactly by load_image and load_table; histories that "
+                "rewrite one path 2..4 times must always deliver the current content through load_image, load_charge and the cached helper. Exploration.",
+        "design_ref": "DESIGN.md section 3, C20",
+        "note": "Rewrites are stamped by the harness (mtime advanced by 1 s, or restored while the size differs); a rewrite preserving size, mtime, ctime and inode is not distinguishable by file metadata and is not generated.",
+    },
 }
